@@ -212,9 +212,6 @@ impl LinearStorage {
 /// skip_target_boundaries: proved for every n in unit c11_skip_targets; which targets are chosen does not matter for soundness
 #[verifier::external_body]
 fn skip_target_boundaries(n: u64) -> (r: Result<Vec<MaxCut>, StorageError>) { unimplemented!() }
-impl Segment {
-    pub fn first_location(&self) -> (r: Location) ensures r == (Location { max_cut: self.first, segment: self.idx }) { Location { max_cut: self.first, segment: self.idx } }
-}
 /// R2' helpers
 fn last_mc(v: &Vec<MaxCut>) -> (r: Option<MaxCut>) ensures v@.len() == 0 ==> r is None, v@.len() > 0 ==> r == Some(v@[v@.len() - 1])
 { if v.len() == 0 { None } else { Some(v[v.len() - 1]) } }
@@ -307,6 +304,10 @@ PREVIOUS = FnSpec(M, 'previous', r'pub trait Segment\b', contract="""
     ('debug_assert_eq!(location.segment, self.index());', 'assert(location.segment == self.idx);', 1, 'R5'),
     ('location.max_cut.decremented()?', 'location.max_cut.checked_sub(1)?', 1, 'R6'),
 ])
+
+FIRST_LOC = FnSpec(M, 'first_location', r'pub trait Segment\b', contract="""
+        ensures r == (Location { max_cut: self.first, segment: self.idx }),
+""")
 
 LCA_PAIR = FnSpec(B, 'lca_pair', attrs='#[verifier::spinoff_prover]',
     sig_rewrites=[('fn lca_pair<S: Storage>(', 'fn lca_pair(', 1, 'R6'), ('storage: &mut S,', 'storage: &mut Storage,', 1, 'R6')],
@@ -534,4 +535,4 @@ fn first_of(heads: &[Location]) -> (r: Option<Location>)
 
 
 def build():
-    return build_unit(PRELUDE + POST, [('impl Segment', [PREVIOUS]), (None, [LCA_PAIR, LCA_N]), ('impl LinearStorage', [WALK, BUILD])])
+    return build_unit(PRELUDE + POST, [('impl Segment', [PREVIOUS, FIRST_LOC]), (None, [LCA_PAIR, LCA_N]), ('impl LinearStorage', [WALK, BUILD])])
